@@ -1,3 +1,5 @@
+//go:build go1.25
+
 // C31: an acknowledged origin upload reaches the backend before local deletion.
 //
 // Composite harness on the REAL code: origin/blobserver.Server handlers (through
@@ -32,6 +34,7 @@ import (
 	"strings"
 	"sync"
 	"sync/atomic"
+	"testing"
 	"time"
 
 	"github.com/andres-erbsen/clock"
@@ -50,10 +53,12 @@ import (
 
 	"verif/bfs"
 	"verif/crash"
+	"verif/e1q"
 	"verif/evid"
 	_ "verif/quiet"
 	"verif/rep"
 	"verif/shim/vos"
+	"verif/vrt"
 )
 
 const (
@@ -354,6 +359,8 @@ type sys struct {
 	before map[string]bool // blob label -> data file present before the current action
 	closed string          // non-empty: closing phase done (terminal), its outcome
 	mon    *monitor
+	// part 3: the manager the server is given (a parking wrapper around s.wb)
+	wrapWB func(*fakeWB) persistedretry.Manager
 }
 
 func (s *sys) casConfig() store.CAStoreConfig {
@@ -419,8 +426,12 @@ func (s *sys) open() error {
 		m.Call([]reflect.Value{reflect.ValueOf(s.wb)})
 		finderWired.Store(true)
 	}
+	var mgr persistedretry.Manager = s.wb
+	if s.wrapWB != nil {
+		mgr = s.wrapWB(s.wb)
+	}
 	srv, err := blobserver.New(blobserver.Config{}, tally.NoopScope, s.e.clk, selfAddr, s.ring, cas, nil, nil,
-		core.PeerContext{}, bm, nil, metainfogen.Fixture(cas, 4), s.wb)
+		core.PeerContext{}, bm, nil, metainfogen.Fixture(cas, 4), mgr)
 	if err != nil {
 		return err
 	}
@@ -438,6 +449,10 @@ func (s *sys) Close() {
 }
 
 func (s *sys) do(method, url string, body []byte, hdr map[string]string) *httptest.ResponseRecorder {
+	return doOn(s.h, method, url, body, hdr)
+}
+
+func doOn(h http.Handler, method, url string, body []byte, hdr map[string]string) *httptest.ResponseRecorder {
 	var rd io.Reader
 	if body != nil {
 		rd = bytes.NewReader(body)
@@ -447,7 +462,7 @@ func (s *sys) do(method, url string, body []byte, hdr map[string]string) *httpte
 		r.Header.Set(k, v)
 	}
 	rec := httptest.NewRecorder()
-	s.h.ServeHTTP(rec, r)
+	h.ServeHTTP(rec, r)
 	return rec
 }
 
@@ -483,8 +498,18 @@ func (s *sys) status(op string, rec *httptest.ResponseRecorder, allowed ...int) 
 	return fmt.Errorf("%s answered %d: %s", op, rec.Code, strings.TrimSpace(rec.Body.String()))
 }
 
-func (s *sys) start(sl *slot) error {
-	rec := s.do("POST", s.uploadsURL(sl), nil, nil)
+func (s *sys) start(sl *slot) error { return s.startResp(sl, s.startReq(sl)()) }
+
+// startReq / patchReq / commitReq build the request of the slot's next step (the
+// returned function performs it on the handler of the CURRENT process; part 3
+// runs it on its own goroutine), startResp / patchResp / commitResp are the
+// uploading client's reaction to the answer.
+func (s *sys) startReq(sl *slot) func() *httptest.ResponseRecorder {
+	h, url := s.h, s.uploadsURL(sl)
+	return func() *httptest.ResponseRecorder { return doOn(h, "POST", url, nil, nil) }
+}
+
+func (s *sys) startResp(sl *slot, rec *httptest.ResponseRecorder) error {
 	sl.phase, sl.uid = 0, ""
 	switch {
 	case rec.Code == 200:
@@ -499,9 +524,17 @@ func (s *sys) start(sl *slot) error {
 	return s.status("start", rec, 200, 409)
 }
 
-func (s *sys) patch(sl *slot) error {
+func (s *sys) patch(sl *slot) error { return s.patchResp(sl, s.patchReq(sl)()) }
+
+func (s *sys) patchReq(sl *slot) func() *httptest.ResponseRecorder {
 	data := blobs[sl.blob].data
-	rec := s.do("PATCH", s.uploadsURL(sl)+"/"+sl.uid, data, map[string]string{"Content-Range": fmt.Sprintf("0-%d", len(data))})
+	h, url := s.h, s.uploadsURL(sl)+"/"+sl.uid
+	return func() *httptest.ResponseRecorder {
+		return doOn(h, "PATCH", url, data, map[string]string{"Content-Range": fmt.Sprintf("0-%d", len(data))})
+	}
+}
+
+func (s *sys) patchResp(sl *slot, rec *httptest.ResponseRecorder) error {
 	switch {
 	case rec.Code == 200:
 		sl.phase = 2
@@ -515,8 +548,14 @@ func (s *sys) patch(sl *slot) error {
 	return s.status("patch", rec, 200, 409, 404)
 }
 
-func (s *sys) commit(sl *slot) error {
-	rec := s.do("PUT", s.uploadsURL(sl)+"/"+sl.uid, nil, nil)
+func (s *sys) commit(sl *slot) error { return s.commitResp(sl, s.commitReq(sl)()) }
+
+func (s *sys) commitReq(sl *slot) func() *httptest.ResponseRecorder {
+	h, url := s.h, s.uploadsURL(sl)+"/"+sl.uid
+	return func() *httptest.ResponseRecorder { return doOn(h, "PUT", url, nil, nil) }
+}
+
+func (s *sys) commitResp(sl *slot, rec *httptest.ResponseRecorder) error {
 	sl.phase, sl.uid = 0, ""
 	switch {
 	case rec.Code/100 == 2:
@@ -533,6 +572,10 @@ func (s *sys) forceCleanup(ttlHr int, owner bool) error {
 	s.ring.owner = owner
 	rec := s.do("POST", fmt.Sprintf("/forcecleanup?ttl_hr=%d", ttlHr), nil, nil)
 	s.ring.owner = true
+	return s.forceCleanupResp(rec)
+}
+
+func (s *sys) forceCleanupResp(rec *httptest.ResponseRecorder) error {
 	if rec.Code == 200 && strings.Contains(rec.Body.String(), "writeback:") {
 		s.mon.event("forcecleanup kept a blob whose write-back failed", s)
 	}
@@ -1119,12 +1162,22 @@ func recoverCrash(dir string, h crashHist, assert bool, nAcked *int) (string, st
 // ---------------------------------------------------------------------------
 
 func main() {
+	args := os.Args // e1q.Main truncates os.Args for the testing package; evid.New needs the tier argument
+	e1q.Main(func(t *testing.T) {
+		os.Args = args
+		mainT()
+	})
+}
+
+func mainT() {
+	vrt.WorkerMain(allCHarnesses())
 	run := evid.New("C31", "exploration")
-	run.Rule = "Part 1: explicit-state BFS over all sequences of <= N actions {start/patch/commit (and whole upload) of blob A by two uploaders and of blob B, run a pending write-back task (real executor), backend down/up, advance 90 min (TTI 1h, TTL 2h), cleanup pass (real job body, upload + cache), POST /forcecleanup ttl 0 as owner / ttl 1h as non-owner, restart, closing phase} on a real blobserver.Server + CAStore, per configuration (1 or 2 namespaces with separate backends) x (LRU capacity 1 or unbounded); states deduplicated on disk state + LRU map + tasks + backend + acknowledged set. Oracle after every action: acknowledged blob absent locally => backend of its namespace holds its bytes; closing phase from every state: backend holds every acknowledged blob. distinct = distinct reached states with >= 1 acknowledged upload. Part 2: crash before every mutating FS primitive (and every backend call / task insert) of upload histories, restart on the image, same oracle for the uploads acknowledged before the crash."
+	run.Rule = "Part 1: explicit-state BFS over all sequences of <= N actions {start/patch/commit (and whole upload) of blob A by two uploaders and of blob B, run a pending write-back task (real executor), backend down/up, advance 90 min (TTI 1h, TTL 2h), cleanup pass (real job body, upload + cache), POST /forcecleanup ttl 0 as owner / ttl 1h as non-owner, restart, closing phase} on a real blobserver.Server + CAStore, per configuration (1 or 2 namespaces with separate backends) x (LRU capacity 1 or unbounded); states deduplicated on disk state + LRU map + tasks + backend + acknowledged set. Oracle after every action: acknowledged blob absent locally => backend of its namespace holds its bytes; closing phase from every state: backend holds every acknowledged blob. distinct = distinct reached states with >= 1 acknowledged upload. Part 2: crash before every mutating FS primitive (and every backend call / task insert) of upload histories, restart on the image, same oracle for the uploads acknowledged before the crash. Part 3 (E1q, testing/synctest bubble): 2 (thorough: also 3) clients upload the SAME blob (same namespace, or two namespaces with separate backends); every HTTP request (start/patch/commit, client protocol of origin/blobclient: a 409 ends the upload as success) runs on its own goroutine against the real Server + CAStore; the write-back manager seam parks every Add (insert in flight) and the explorer chooses when it proceeds and whether it records the task or fails without effect; further actions: one POST /forcecleanup?ttl_hr=0 with the backend up or in an outage (while the blob is cached) and one restart of the origin (while an Add is parked: requests in flight die unanswered, their Add never happens). EVERY order of the enabled requests / parked Adds / forcecleanup / restart with every Add outcome is executed (no deviation bound). Oracle at every quiescent point: (a) an acknowledged upload has a recorded (namespace, blob) task or its backend holds the blob (otherwise a restart at this point leaves nothing that would ever write it back), (b) acknowledged blob absent locally => backend of its namespace holds it; at the end of every order the closing phase of part 1. distinct (part 3) = outcome classes (how each upload ended, acknowledged set, tasks, backend, cache, overlap/failure flags)."
 	run.Assume("small-scope: 2 blobs, <= 3 upload slots, single-chunk uploads, write-back delay 0, every namespace has a backend")
 	run.Assume("the persisted-retry manager is a seam: durable task set keyed (namespace, name), explicit task execution by the real writeback.Executor (retry/restart behaviour of the real manager is C30)")
 	run.Assume("acknowledgement = 2xx of the commit or 409 at start/patch/commit (origin/blobclient treats a conflict as success)")
-	run.Assume("sequential histories: no action concurrent with a handler; process-crash model for part 2 (no torn writes)")
+	run.Assume("parts 1 and 2: sequential histories (no action concurrent with a handler); process-crash model for part 2 (no torn writes)")
+	run.Assume("part 3: one blob, 2-3 clients, scheduling granularity = request boundaries + the Add seam (code between two seams runs atomically; forced cleanup is one atomic step, its Find/SyncExec are not parked); an Add fails only without effect; a restart kills the requests in flight (their goroutines end inside Add) and their clients do not retry; no task is run during the concurrent phase (tasks run in the closing phase and inside forced cleanup's SyncExec)")
 
 	thorough := run.Thorough()
 	depth := 5
@@ -1193,7 +1246,11 @@ func main() {
 
 	total := 0
 	withAck := 0
-	for _, h := range crashHistories(thorough) {
+	hists := crashHistories(thorough)
+	if os.Getenv("C31_ONLY") == "concurrent" { // development knob: part 3 only
+		hists = nil
+	}
+	for _, h := range hists {
 		h := h
 		var mu sync.Mutex
 		c := crash.Case{
@@ -1233,6 +1290,8 @@ func main() {
 			run.Sample(map[string]interface{}{"crash_history": c.Name, "primitives": st.Log})
 		}
 	}
+	concurrentPart(run, thorough)
+
 	run.Set("executor_task_finder_wired", finderWired.Load())
 	run.Set("crash_images_retry_acknowledged", retryAcked.Load())
 	run.Set("crash_images_retry_not_acknowledged", retryRefused.Load())
